@@ -10,8 +10,13 @@
    fn 6 parse_root  [VL events]                         -> VL [] | VL [name; attrs]
    fn 7 to_ele      [VL events]                         -> VL [] | VL [xnode]
         event: [VN 0; name; attrs] start | [VN 1] end | [VN 2; VB] text | [VN 3; VB] comment | [VN 4; VB; VB] pi | [VN 5] error
-   fn 8 mview       [mnode]                             -> xnode *)
-From NC Require Import Model.Base Model.XTree Model.XmlHelpers Glue.XCodec.
+   fn 8 mview       [mnode]                             -> xnode
+   fn 9 history     [mnode; VL hops]                    -> VL [ VL [mnode after the call; result] ... ]  (stops at a call that names no element)
+        hop: [VN 0; VL path; VB enc] to_xml | [VN 1; VL path] to_ele | [VN 2; VL path; tags; VL reqs] validated_element
+             [VN 3; VL path; ns old; ns new] replace_namespace | [VN 4; VL path; VB tag; attrs] sub_ele | [VN 5; VL path; VB tag; ns; attrs] sub_ele_ns
+             (paths are lxml child indices: text is not a child)
+        result: [VN 0] in-place edit | [VN 1; mnode] the element handed to the serialiser | [VN 2; mnode] the element returned | [VN 3; VN vres] *)
+From NC Require Import Model.Base Model.XTree Model.XmlHelpers Model.XmlHistory Glue.XCodec.
 
 Definition dec_tags (v : val) : tagsarg :=
   match v with
@@ -46,6 +51,26 @@ Definition dec_event (v : val) : event :=
   | _ => EvError
   end.
 
+Definition dec_hop (v : val) : hop :=
+  match v with
+  | VL [VN 0; p; VB enc] => HToXml (dec_path p) enc
+  | VL [VN 2; p; tags; VL reqs] => HValidated (dec_path p) (dec_tags tags) (map dec_req reqs)
+  | VL [VN 3; p; o; n] => HReplace (dec_path p) (dec_ns o) (dec_ns n)
+  | VL [VN 4; p; VB tag; a] => HSubEle (dec_path p) tag (dec_attrs a)
+  | VL [VN 5; p; VB tag; u; a] => HSubEleNs (dec_path p) tag (dec_ns u) (dec_attrs a)
+  | VL (_ :: p :: _) => HToEle (dec_path p)
+  | _ => HToEle []
+  end.
+
+(* the serialiser's octets are compared by fn 1; here the runner reports the element it is handed *)
+Definition enc_obs (o : hobs) : val :=
+  match o with
+  | ODone => VL [VN 0]
+  | OXml s _ => VL [VN 1; enc_m s]
+  | OEle s => VL [VN 2; enc_m s]
+  | OVal r => VL [VN 3; enc_vres r]
+  end.
+
 Definition run (v : val) : val :=
   match v with
   | VL [VN 1; VB ser; VB enc] => VB (to_xml ser enc)
@@ -61,5 +86,7 @@ Definition run (v : val) : val :=
       end
   | VL [VN 7; VL evs] => vopt (option_map enc_x (to_ele_ev (map dec_event evs)))
   | VL [VN 8; t] => enc_x (mview (dec_m t))
+  | VL [VN 9; t; VL ops] =>
+      VL (map (fun so => VL [enc_m (fst so); enc_obs (snd so)]) (htrace (fun _ _ => []) (dec_m t) (map dec_hop ops)))
   | _ => verr 1
   end.
